@@ -408,6 +408,46 @@ def check_operators(run, rng, engine: str, case: Any) -> None:
             ch.value = 'm'
     if kv_snapshot(b2) != sb2:
         run.violation('a += b / a.extend(b) changed or aliased b', case=case, engine=engine, key='kv-iadd-aliases')
+    # the right operand in every form an iterable of keyvalues can take: a list, a tuple, a block, and the one-shot forms (an
+    # iterator, a generator, the library's own find_all() result) - the outcome is the same
+    items_src = gen_kv(rng)
+    if not items_src.has_children():
+        items_src = Keyvalues('holder', [Keyvalues('only', 'one')])
+    kids = list(items_src)
+    s_kids = [kv_snapshot(k) for k in kids]
+    suppliers = [('list', lambda: list(kids)), ('tuple', lambda: tuple(kids)), ('iter', lambda: iter(kids)),
+                 ('generator', lambda: (k for k in kids)), ('map', lambda: map(lambda k: k, kids))]
+    names = {k.name for k in kids}
+    if len(names) == 1 and None not in names:
+        suppliers.append(('find_all', lambda: items_src.find_all(kids[0].real_name)))
+    for sup_name, sup in suppliers:
+        for form in ('+', '+=', 'extend'):
+            left = Keyvalues('left', [Keyvalues('k', 'v')])
+            try:
+                with warnings.catch_warnings():
+                    warnings.simplefilter('ignore')
+                    if form == '+':
+                        out = left + sup()
+                    elif form == '+=':
+                        out = left
+                        out += sup()
+                    else:
+                        out = left
+                        out.extend(sup())
+            except TypeError:
+                continue   # an operand form this operator does not take at all
+            run.count('operator_checks')
+            run.count('kv_operands_in_one_shot_form' if sup_name in ('iter', 'generator', 'map', 'find_all') else 'kv_operands_in_sequence_form')
+            got = kv_snapshot(out)
+            want_snap = (got[0], [kv_snapshot(Keyvalues('k', 'v'))] + s_kids)
+            if got != want_snap:
+                run.violation(f'Keyvalues block {form} <{sup_name} of {len(kids)} keyvalues> does not hold the block followed by those keyvalues',
+                              witness={'got': got, 'want': want_snap}, case=case, engine=engine, key='kv-add-wrong-result')
+                break
+            if [kv_snapshot(k) for k in kids] != s_kids or any(o is k for o in out for k in kids):
+                run.violation(f'Keyvalues block {form} <{sup_name}> changed or took over the operand\'s keyvalues', case=case, engine=engine,
+                              key='kv-add-aliases')
+                break
     # copy() of a tree
     t = gen_kv(rng)
     st = kv_snapshot(t)
@@ -659,4 +699,4 @@ def replay(run, data) -> None:
 
 
 # (kept at the end of the file so that the text above stays the description the check was first built to)
-RULE += ' ' + 'Later additions: every binary operator over every pair of operand kinds (mutable, frozen, tuple, scalar) in both orders plus the unary operators and value-returning methods, results edited in place; copy options (side_mapping law, keep_vis=False, other map), the map every part of a copy belongs to, copies of worldspawn, cross-map Side / EntityGroup copies. Visgroup trees copied within the map and into another one: every group of the copy belongs to the destination map, its ID is reserved there and collides with nothing, the reserved IDs of the source map are untouched, and the mapping names every group. Every copy that lives in the same map as its source is checked for IDs of its own (entity, brush, face, visgroup, group); a quarter of the maps are read back with preserve_ids=True first.'
+RULE += ' ' + 'Later additions: every binary operator over every pair of operand kinds (mutable, frozen, tuple, scalar) in both orders plus the unary operators and value-returning methods, results edited in place; copy options (side_mapping law, keep_vis=False, other map), the map every part of a copy belongs to, copies of worldspawn, cross-map Side / EntityGroup copies. Visgroup trees copied within the map and into another one: every group of the copy belongs to the destination map, its ID is reserved there and collides with nothing, the reserved IDs of the source map are untouched, and the mapping names every group. Every copy that lives in the same map as its source is checked for IDs of its own (entity, brush, face, visgroup, group); a quarter of the maps are read back with preserve_ids=True first. The right operand of Keyvalues +, += and extend() is supplied as list, tuple, iterator, generator, map object and find_all() result: the same outcome each time.'
